@@ -267,7 +267,7 @@ def san_key(text, context=""):
 
 
 def save_replay(check_id, res, why):
-    d = os.path.join(VERIF, "replays", check_id)
+    d = os.path.join(os.environ.get("VERIF_REPLAY_DIR") or os.path.join(VERIF, "replays"), check_id)
     os.makedirs(d, exist_ok=True)
     p = os.path.join(d, res.case.name + ".script")
     with open(p, "w") as f:
